@@ -299,8 +299,10 @@ inductive EOp where
   | ins (r : Name) (ts : List Nat)      -- insert_tuples_into
   | del (r : Name) (ts : List Nat)      -- delete_tuples_from
   | dropRel (r : Name)                  -- drop_relation_in
-  | flushAll                            -- save_knowledge_graph("default")
-  | compactAll                          -- compact_all
+  /-- `save_knowledge_graph("default")`.  The loop runs over a `HashMap`; `ord` is the iteration order (shards listed
+      first, in that order; the remaining ones after them) — a schedule parameter the theorems quantify over. -/
+  | flushAll (ord : List Name)
+  | compactAll (ord : List Name)        -- compact_all, same convention
   deriving DecidableEq, Repr
 
 def flushList (w : World) : List Name → World
@@ -312,6 +314,16 @@ def compactList (w : World) : List Name → World
   | s :: rest => let w := compact w s; if w.failed then w else compactList w rest
 
 def addKnown (l : List Name) (r : Name) : List Name := if r ∈ l then l else l ++ [r]
+
+/-- iteration order of a `HashMap` loop given the schedule `ord`. -/
+def orderBy (ord names : List Name) : List Name :=
+  (ord.eraseDups.filter (fun n => decide (n ∈ names))) ++ names.filter (fun n => decide (n ∉ ord))
+
+/-- the shards whose metadata was renamed into place, in order (what an observer of `shards/` sees). -/
+def metaOrder (trace : List Step) : List Name :=
+  trace.filterMap (fun st => match st.2 with
+    | .rename (.metaTmp s) _ => some s
+    | _ => none)
 
 /-- one engine operation from a running engine; `trace` holds its steps, `failed` its acknowledgement. -/
 def runOp (bufferSize : Nat) (w : World) (o : EOp) : World :=
@@ -335,11 +347,11 @@ def runOp (bufferSize : Nat) (w : World) (o : EOp) : World :=
     let w := { w with mem := { w.mem with known := w.mem.known.filter (· ≠ r) } }
     let w := deleteShard w r
     { w with failed := false }      -- `let _ = self.persist.delete_shard(..)`
-  | .flushAll =>
-    let w := flushList w (w.mem.shards.map (·.1))
+  | .flushAll ord =>
+    let w := flushList w (orderBy ord (w.mem.shards.map (·.1)))
     if w.failed then w else syncWal w
-  | .compactAll =>
-    let w := compactList w (w.mem.shards.map (·.1))
+  | .compactAll ord =>
+    let w := compactList w (orderBy ord (w.mem.shards.map (·.1)))
     if w.failed then w else syncWal w
 
 /-! ### recovery: `FilePersist::new` + `load_all_knowledge_graphs` -/
@@ -404,7 +416,7 @@ def loadRelations (d : Disk) : List (Name × Shard) → Option (List (Name × Li
     | _, _ => none
 
 /-- `StorageEngine::new` on a disk image: `none` = the engine does not open.  The steps are in `trace`. -/
-def openEngine (d : Disk) : Option World :=
+def openEngine (d : Disk) (ord : List Name := []) : Option World :=
   let w : World := { disk := d }
   let w := emit w .persistNewMkdir (.nop 0)
   let w := emit w .walNewMkdir (.nop 0)
@@ -418,7 +430,7 @@ def openEngine (d : Disk) : Option World :=
     | none => none
     | some entries =>
       let w := { w with mem := { w.mem with shards := replay w.mem.shards entries } }
-      let w := if entries = [] then w else flushList w (dirty w.mem.shards)
+      let w := if entries = [] then w else flushList w (orderBy ord (dirty w.mem.shards))
       if w.failed then none else
       let w := if (get w.disk .walNew).isSome then emit w .walArchivesUnlinkNew (.unlink .walNew) else w
       match loadRelations w.disk w.mem.shards with
@@ -446,7 +458,7 @@ inductive HItem where
   | opCrash (o : EOp) (j : Nat) (cut : Option Cut)
   | restart                                   -- crash between operations
   /-- the reopen that follows a crash itself crashes after its `j`-th step -/
-  | openCrash (j : Nat) (cut : Option Cut)
+  | openCrash (j : Nat) (cut : Option Cut) (ord : List Name)
   deriving Repr
 
 def opPath : Op Path Rec → Option Path
@@ -464,13 +476,20 @@ def imageAt (d0 : Disk) (trace : List Step) (j : Nat) (cut : Option Cut) : Disk 
     | _, _ => noCut
   crash d cuts
 
+/-- the observable shard order of a multi-shard loop (empty for single-shard operations). -/
+def loopOrder (o : EOp) (trace : List Step) : List Name :=
+  match o with
+  | .flushAll _ => metaOrder trace
+  | .compactAll _ => metaOrder trace
+  | _ => []
+
 inductive Sys where
   | up (w : World)
   | down (d : Disk)
 
 inductive Out where
-  | ack (ok : Bool) (steps : List Lbl)
-  | crashed                                              -- the item ended in a crash (nothing is acknowledged)
+  | ack (ok : Bool) (steps : List Lbl) (ord : List Name)  -- `ord`: observed shard order of a flush-all / compact-all
+  | crashed (ord : List Name)                            -- the item ended in a crash (nothing is acknowledged)
   | opened (vis : List (Name × List Nat)) (steps : List Lbl)
   | openFailed
   deriving DecidableEq, Repr
@@ -485,13 +504,13 @@ def bringUp : Sys → List Out × Option World
 
 def runItems (bufferSize : Nat) (sys : Sys) : List HItem → List Out
   | [] => (bringUp sys).1
-  | .openCrash j cut :: rest =>
+  | .openCrash j cut ord :: rest =>
     match sys with
     | .down d =>
-      match openEngine d with
+      match openEngine d ord with
       | none => [.openFailed]
-      | some w => .crashed :: runItems bufferSize (.down (imageAt d w.trace j cut)) rest
-    | .up w => .crashed :: runItems bufferSize (.down (crash w.disk noCut)) rest     -- not after a crash: plain restart
+      | some w => .crashed (metaOrder w.trace) :: runItems bufferSize (.down (imageAt d w.trace j cut)) rest
+    | .up w => .crashed [] :: runItems bufferSize (.down (crash w.disk noCut)) rest     -- not after a crash: plain restart
   | it :: rest =>
     match bringUp sys with
     | (outs, none) => outs
@@ -499,12 +518,12 @@ def runItems (bufferSize : Nat) (sys : Sys) : List HItem → List Out
       match it with
       | .op o =>
         let w' := runOp bufferSize w o
-        outs ++ .ack (!w'.failed) (w'.trace.map (·.1)) :: runItems bufferSize (.up w') rest
+        outs ++ .ack (!w'.failed) (w'.trace.map (·.1)) (loopOrder o w'.trace) :: runItems bufferSize (.up w') rest
       | .opCrash o j cut =>
         let w' := runOp bufferSize w o
-        outs ++ .crashed :: runItems bufferSize (.down (imageAt w.disk w'.trace j cut)) rest
-      | .restart => outs ++ .crashed :: runItems bufferSize (.down (crash w.disk noCut)) rest
-      | .openCrash _ _ => outs      -- unreachable (handled above)
+        outs ++ .crashed (loopOrder o w'.trace) :: runItems bufferSize (.down (imageAt w.disk w'.trace j cut)) rest
+      | .restart => outs ++ .crashed [] :: runItems bufferSize (.down (crash w.disk noCut)) rest
+      | .openCrash _ _ _ => outs      -- unreachable (handled above)
 
 /-- a history always ends with a crash and a reopen, so that the durable state is observed. -/
 def run (bufferSize : Nat) (h : List HItem) : List Out := runItems bufferSize (.up {}) (h ++ [.restart])
